@@ -12,6 +12,12 @@ CLAIMED = {
  "C05": ("Coq proof (induction over the copy sequence with an explicit write log) + correspondence over every capacity",
          "Theorems for every URI value and every capacity: chars-required = length of the text; capacity >= length+1 succeeds with length+1 reported; smaller capacities give the too-long code, charsWritten 0, an empty string iff capacity >= 1; every write lies inside [0, capacity). Tied to src/UriRecompose.c by running all capacities from -1 to length+2 on parsed and raw objects, guard zones and ASan exact-size buffers.",
          TB + " Partial in one respect: a real write past the buffer is runtime behaviour, observed by guard zones / ASan.", "5 C05"),
+ "C06": ("Coq proof (segment-stack dot removal proved equal to the RFC 3986 5.2.4 string loop; merge lemma; five branches of 5.2.2) + small-scope exhaustive correspondence and RFC oracle",
+         "Theorems for all well-formed objects: the five components of the result of resolution equal guard_slashes(transform) of RFC 3986 5.2.2 with 5.2.3 merge and kind-preserving 5.2.4 removal, outside one corner where the property's two clauses cannot both be met (shown inhabited and necessary); relative base rejected; identical-scheme option; authority copied field by field; text theorem for hosts without IP data. Tied to src/UriResolve.c and src/UriCommon.c by all (reference, base) pairs over small-scope path alphabets x authority/scheme/query variants, both options, with the RFC text oracle evaluated on the implementation's results.",
+         TB + " Well-formedness of parsed objects (wf) is a hypothesis of the resolution theorem; it is checked on a small scope inside Coq and by the parser correspondence, not yet proved from Model/Parse.v.", "5 C06"),
+ "C08": ("Coq proof (percent-encoding engine = specification; exact mask query; mask exactness and sufficiency; idempotence outside relative-path references, refuted inside) + 64-mask correspondence",
+         "Theorems for all objects / all pct-well-formed texts: fix_pct equals the specification, never lengthens, the mask query is exact for percent-encodings and case; every mask changes exactly the selected components to their full normal form; the reported mask is sufficient and zero means normal; idempotence for non-relative references, with the relative-reference counterexample proved (known finding D7). Tied to src/UriNormalize.c by all 64 masks on borrowed and owned objects over case/percent/dot alphabets with the text-level RFC 6.2.2 oracle.",
+         TB + " Known findings D7a-c and D14 (relative-path references; missing guard) are carved out of the positive theorems and suppressed by shape in the oracle.", "5 C08"),
  "C11": ("Coq proof (uriEqualsUri characterised by a key function; injective on NUL-free texts) + all-pairs correspondence",
          "Theorems: equality holds iff all components are identical (IP hosts by value, absent never equal to empty) for NUL-free texts; reflexive, symmetric, transitive for all values incl. NULL; identical components give identical text. Tied to src/UriCompare.c by all ordered pairs over a pool of raw objects differing in one component and parsed texts, plus pairs of library-produced objects compared with their recomposed texts. The converse text direction is checked on library-produced objects at run time (known finding D6).",
          TB, "5 C11"),
